@@ -262,6 +262,19 @@ func (l *Listener) Close() error {
 		l.Listening = false
 	}
 	close(l.closeq)
+	// connections still waiting in the backlog are reset when the listening socket goes, as the kernel does
+	for {
+		select {
+		case a := <-l.acceptq:
+			if a.p != nil && !a.p.Closed {
+				a.p.Closed = true
+				close(a.p.closeq)
+			}
+			continue
+		default:
+		}
+		break
+	}
 	return nil
 }
 
